@@ -243,27 +243,37 @@ def below (w : World) (a : Nat) : Nat → Nat → Bool
       | some p => below w a f p
       | none => false)
 
-/-- one visited execution: `_cancel_workflow(msg)` (ignored when completed) -/
-def cancelOne (msg : String) (w : World) (x : Nat) : World :=
-  match w.execs[x]? with
-  | some e => if isCompleted e.state then w else finish w x e .CANCELLED (.op msg) (.result (.op msg))
-  | none => w
+/-- one visited execution: `_cancel_workflow(msg)` (ignored when completed): CANCELLED, the message as
+    state_info and as `{'result': msg}`, accepted, and one `_send_result` if it has a parent task -/
+def cancelled (msg : String) (e : Exec) : Exec :=
+  { e with state := .CANCELLED, info := .op msg, out := .result (.op msg), accepted := true,
+           sent := if e.parent.isSome then e.sent + 1 else e.sent }
+
+/-- is execution x (row e) cancelled by `stop_workflow(a, CANCELLED)`? -/
+def hit (w : World) (a : Nat) (x : Nat) (e : Exec) : Bool :=
+  reached w a w.execs.length x && !isCompleted e.state
 
 /-- the whole transaction of `stop_workflow(a, CANCELLED, msg)`; the visited set is computed on the
     rows as they were when the transaction began (each execution is visited at most once, and the loop
     tests a child's state before that child is touched) -/
 def cancelTx (w : World) (a : Nat) (msg : String) : World :=
-  ((List.range w.execs.length).filter fun x => reached w a w.execs.length x).foldl (cancelOne msg) w
+  { w with
+    execs := w.execs.mapIdx fun x e => if hit w a x e then cancelled msg e else e,
+    pending := w.pending ++
+      ((w.execs.zipIdx.filter fun p => hit w a p.2 p.1 && p.1.parent.isSome).map fun p => Item.postSendResult p.2) }
 
 /-! ## tasks -/
+
+def newExec (d : Nat) (parent : Option Nat) (index : Nat) : Exec :=
+  { defn := d, parent := parent, index := index, state := .RUNNING, info := .none, out := .empty,
+    accepted := false, sent := 0, got := 0 }
 
 /-- `Workflow.start` of a new execution (state RUNNING, start tasks dispatched); `check` = the
     completion check `DefaultEngine.start_workflow` runs in the same transaction (not run by the
     in-process start of a sub-workflow) -/
 def startWf (c : Cfg) (w : World) (d : Nat) (parent : Option Nat) (index : Nat) (check : Bool) : World :=
   let i := w.execs.length
-  let w1 := { w with execs := w.execs ++ [{ defn := d, parent := parent, index := index, state := .RUNNING,
-                                            info := .none, out := .empty, accepted := false, sent := 0, got := 0 }] }
+  let w1 := { w with execs := w.execs ++ [newExec d parent index] }
   let w2 := dispatch w1 i (startTasks (defOf c d))
   if check then checkAndComplete w2 i else w2
 
@@ -326,7 +336,7 @@ def runTask (c : Cfg) (w : World) (t : Nat) : World :=
       | some .action => { w1 with pending := w1.pending ++ [.postRunAction t] }
       | some (.subwf d none _) => startSub c w1 t d 0
       | some (.subwf d (some n) conc) =>
-        let w2 := { w1 with tasks := w1.tasks.set t { tk with state := .RUNNING, wi := some (n, conc) } }
+        let w2 := { w with tasks := w.tasks.set t { tk with state := .RUNNING, wi := some (n, conc) } }
         wiSchedule c w2 t d n conc
 
 /-- `is_with_items_completed` -/
@@ -345,6 +355,18 @@ def wiFinalState (w : World) (t : Nat) : St :=
   else if ch.any (fun p => p.2.accepted && p.2.state == .ERROR) then .ERROR
   else .SUCCESS
 
+/-- python truthiness of `runtime_context.get('concurrency')` -/
+def hasConc (conc : Option Nat) : Bool :=
+  match conc with
+  | some k => k != 0
+  | none => false
+
+/-- `_increase_capacity` -/
+def incCap (conc cap : Option Nat) : Option Nat :=
+  match conc, cap with
+  | some k, some cp => if k != 0 && cp < k then some (cp + 1) else some cp
+  | _, cp => cp
+
 /-- `WithItemsTask.on_action_complete` (the scheduled `_on_action_complete` of a with-items task) -/
 def wiOnComplete (c : Cfg) (w : World) (t : Nat) : World :=
   match w.tasks[t]? with
@@ -355,16 +377,13 @@ def wiOnComplete (c : Cfg) (w : World) (t : Nat) : World :=
     | some e, some (count, cap) =>
       match kindOf c e.defn tk.name with
       | some (.subwf d (some _) conc) =>
-        -- _increase_capacity
-        let cap1 : Option Nat := match conc, cap with
-          | some k, some cp => if k != 0 && cp < k then some (cp + 1) else some cp
-          | _, cp => cp
+        let cap1 := incCap conc cap
         let w1 := { w with tasks := w.tasks.set t { tk with wi := some (count, cap1) } }
         if wiCompleted w1 t count cap1 conc then completeTask c w1 t (wiFinalState w1 t)
         else
           -- _has_more_iterations and a concurrency limit
           let busy := (childrenOfTask w1 t).filter fun p => p.2.accepted || p.2.state == .RUNNING
-          if count > busy.length && (match conc with | some k => k != 0 | none => false)
+          if count > busy.length && hasConc conc
           then wiSchedule c w1 t d count cap1 else w1
       | _ => w
     | _, _ => w
